@@ -268,6 +268,12 @@ def exec_peaks_case(ctx, case):
     m = case.get("nangles", 23)          # fine angular sampling: lists of tens of thousands of orientations
     alist = np.round(np.column_stack([rs.uniform(-180, 180, m), rs.uniform(0, 180, m), rs.uniform(-180, 180, m)]), 3)
     amap = rs.randint(0, m, size=shape).astype(float) + case["numbering"]
+    if m > 32767:
+        # the strongest voxels (the global maximum is always a peak) point at the END of a long list: entries beyond
+        # 2^15 must be looked up, not wrapped
+        top = np.argsort(scores.ravel())[::-1][:4]
+        for j, flat_i in enumerate(top):
+            amap[np.unravel_index(int(flat_i), shape)] = case["numbering"] + m - 1 - j
     sig = {"op": "scores_extract_particles", "layer": "L3", "order": case["order"],
            "list": "file" if (case["as_file"] or case["order"] == "zzx") else "array"}
     if case["as_file"] or case["order"] == "zzx":
@@ -445,7 +451,7 @@ def run(ctx):
     for a in range(0, len(cases), 1000):
         run_l3(ctx, cases[a:a + 1000])
     pcases = [gen_peaks_case(ctx.rng, i + 1, ctx.pick(16, 40)) for i in range(ctx.pick(60, 300))]
-    for k, c in enumerate(pcases[:ctx.pick(2, 8)]):
+    for k, c in enumerate(pcases[:ctx.pick(4, 8)]):
         # angle-map entries beyond 2^15 and 2^16 / 2 (a map of 40^3 voxels can index 64000 orientations)
         c["nangles"] = [40000, 64000, 33000, 50000][k % 4]
         c["nsup"] = min(c["nsup"], 150)
